@@ -585,6 +585,8 @@ func (u *Unmarshaler) processFieldNotFromString(fieldType reflect.Type, value re
 	typeKind := derefedFieldType.Kind()
 	mapValue := vp.value
 	valueKind := reflect.TypeOf(mapValue).Kind()
+	// json.Number and other named string types have kind String, but are not strings
+	strValue, isString := mapValue.(string)
 
 	switch {
 	case valueKind == reflect.Map && typeKind == reflect.Struct:
@@ -621,10 +623,10 @@ func (u *Unmarshaler) processFieldNotFromString(fieldType reflect.Type, value re
 		}
 
 		return u.fillSliceFromString(fieldType, value, mapValue, fullName)
-	case valueKind == reflect.String && derefedFieldType == durationType:
-		return fillDurationValue(fieldType, value, mapValue.(string))
-	case valueKind == reflect.String && typeKind == reflect.Struct && u.implementsUnmarshaler(fieldType):
-		return u.fillUnmarshalerStruct(fieldType, value, mapValue.(string))
+	case isString && derefedFieldType == durationType:
+		return fillDurationValue(fieldType, value, strValue)
+	case isString && typeKind == reflect.Struct && u.implementsUnmarshaler(fieldType):
+		return u.fillUnmarshalerStruct(fieldType, value, strValue)
 	default:
 		return u.processFieldPrimitive(fieldType, value, mapValue, opts, fullName)
 	}
